@@ -9,6 +9,51 @@ def cls_of(fam):
     return getattr(cvss, T.CLASSNAME[fam])
 
 
+# How the object under judgement is obtained. The sweeps judge most points on an object built by
+# the class constructor and, at a fixed stride (and again at the end of every task), on an object
+# obtained through the library's other entry points: the constructor for Red Hat notation, the
+# text scanner, and a constructor call followed by hashing and comparing (what any consumer that
+# de-duplicates does before it reads an object).
+ENTRY = "direct"
+ENTRIES = ("rh", "text", "hashed")
+
+
+class EntryError(Exception):
+    pass
+
+
+def construct(fam, vec):
+    cls = cls_of(fam)
+    e = ENTRY
+    if e == "text" and fam == "4.0":
+        e = "hashed"            # the scanner is specified for v2 and v3 only
+    if e == "direct":
+        return cls(vec)
+    if e == "rh":
+        score = cls(vec).rh_vector().split("/")[0]
+        return cls.from_rh_vector(score + "/" + vec)
+    if e == "text":
+        from cvss.parser import parse_cvss_from_text
+        got = parse_cvss_from_text(vec)
+        if len(got) != 1 or type(got[0]) is not cls:
+            raise EntryError("parse_cvss_from_text(%r) returns %r instead of the one %s object" % (
+                vec, got, cls.__name__))
+        return got[0]
+    if e == "hashed":
+        o = cls(vec)
+        seen = set([o])
+        if not (o == cls(vec)) or cls(vec) not in seen:
+            raise EntryError("the object does not equal / hash like a second object built from %r" % vec)
+        return o
+    raise ValueError(e)
+
+
+def via():
+    return "" if ENTRY == "direct" else "  [object obtained through %s]" % {
+        "rh": "from_rh_vector(<its score>/<vector>)", "text": "parse_cvss_from_text(<vector>)",
+        "hashed": "the constructor, then hashed and compared"}[ENTRY]
+
+
 def observation(fam, obj):
     """Everything C05 calls 'outputs', except equality/hash (handled by the caller)."""
     out = {
